@@ -17,6 +17,9 @@
 EXTENDS Integers, Sequences, FiniteSets, TLC, SequencesExt, FiniteSetsExt, Json, IOUtils
 
 CONSTANTS Truthiness,     \* BOOLEAN: model `if nr and dr` (zero is falsy) as the unrepaired code does
+          Files,          \* how many files one process reads one after the other (the readers are created per file)
+          StickyGrid,     \* BOOLEAN: the reader object outlives the file and keeps the last resolved values, which then stand in for
+                          \* what a later file leaves out (not the tree as it is)
           As, Es, Ks      \* decimal lattice of (d): dr = a * 10^-e, cutoff = k * dr
 
 Absent == -999
@@ -29,9 +32,11 @@ CutVals == {Absent, NonNumeric, -8, 0, 8, 12}         \* quarters
 VARIABLES inp,     \* [nr, dr, cut] as written in the file
           nr, dr, cut,   \* the local variables of _init_cutoff
           pc,      \* "read" | "branch" | "signs" | "done"
-          out      \* Pending | Reject | [nr, cut]  (Absent = None: the factory substitutes its default)
+          out,     \* Pending | Reject | [nr, cut]  (Absent = None: the factory substitutes its default)
+          kept,    \* what an earlier file of this process resolved to (StickyGrid), Pending = nothing
+          nfile    \* files read so far
 
-vars == <<inp, nr, dr, cut, pc, out>>
+vars == <<inp, nr, dr, cut, pc, out, kept, nfile>>
 
 Reject == [rej |-> TRUE, nr |-> 0, cut |-> 0]
 Pending == [rej |-> FALSE, nr |-> -1, cut |-> -1]
@@ -63,51 +68,61 @@ WithDefaults(o, dn, dc) == IF o = Reject THEN o ELSE Acc(IF o.nr = Absent THEN d
 (* (b) the implementation *)
 Init == /\ inp \in [nr : NrVals, dr : DrVals, cut : CutVals]
         /\ nr = Absent /\ dr = Absent /\ cut = Absent /\ pc = "read" /\ out = Pending
+        /\ kept = Pending /\ nfile = 1
+
+Sticky(o) == IF StickyGrid /\ kept # Pending
+             THEN Acc(IF o.nr = Absent THEN kept.nr ELSE o.nr, IF o.cut = Absent THEN kept.cut ELSE o.cut) ELSE o
 
 \* _get_or_none x 3: a value that cannot be converted raises ConfigParserException
 Read == /\ pc = "read"
         /\ IF ~Numeric(inp.nr) \/ ~Numeric(inp.dr) \/ ~Numeric(inp.cut)
            THEN /\ out' = Reject /\ pc' = "done" /\ UNCHANGED <<nr, dr, cut>>
            ELSE /\ nr' = inp.nr /\ dr' = inp.dr /\ cut' = inp.cut /\ pc' = (IF Truthiness THEN "branch" ELSE "signs") /\ UNCHANGED out
-        /\ UNCHANGED inp
+        /\ UNCHANGED <<inp, kept, nfile>>
 
 AllThree == /\ pc = "branch" /\ Truthy(nr) /\ Truthy(dr) /\ Truthy(cut)
-            /\ out' = Reject /\ pc' = "done" /\ UNCHANGED <<inp, nr, dr, cut>>
+            /\ out' = Reject /\ pc' = "done" /\ UNCHANGED <<inp, nr, dr, cut, kept, nfile>>
 
 SetCutoff == /\ pc = "branch" /\ ~(Truthy(nr) /\ Truthy(dr) /\ Truthy(cut)) /\ Truthy(nr) /\ Truthy(dr)
              /\ cut' = (nr - 1) * dr
-             /\ pc' = (IF Truthiness THEN "signs" ELSE "finish") /\ UNCHANGED <<inp, nr, dr, out>>
+             /\ pc' = (IF Truthiness THEN "signs" ELSE "finish") /\ UNCHANGED <<inp, nr, dr, out, kept, nfile>>
 
 SetNr == /\ pc = "branch" /\ ~(Truthy(nr) /\ Truthy(dr)) /\ Truthy(cut) /\ Truthy(dr)
          /\ nr' = (cut \div dr) + 1          \* int(cutoff/dr + 1); exact here, floating point in the code: see (d)
-         /\ pc' = (IF Truthiness THEN "signs" ELSE "finish") /\ UNCHANGED <<inp, dr, cut, out>>
+         /\ pc' = (IF Truthiness THEN "signs" ELSE "finish") /\ UNCHANGED <<inp, dr, cut, out, kept, nfile>>
 
 StepAlone == /\ pc = "branch" /\ ~(Truthy(nr) /\ Truthy(dr)) /\ ~(Truthy(cut) /\ Truthy(dr)) /\ Present(dr)
-             /\ out' = Reject /\ pc' = "done" /\ UNCHANGED <<inp, nr, dr, cut>>
+             /\ out' = Reject /\ pc' = "done" /\ UNCHANGED <<inp, nr, dr, cut, kept, nfile>>
 
 NoBranch == /\ pc = "branch" /\ ~(Truthy(nr) /\ Truthy(dr)) /\ ~(Truthy(cut) /\ Truthy(dr)) /\ ~Present(dr)
-            /\ pc' = (IF Truthiness THEN "signs" ELSE "finish") /\ UNCHANGED <<inp, nr, dr, cut, out>>
+            /\ pc' = (IF Truthiness THEN "signs" ELSE "finish") /\ UNCHANGED <<inp, nr, dr, cut, out, kept, nfile>>
 
 \* the three `<= 0` checks (after the branches in the unrepaired code, before them in the repaired one)
 Signs == /\ pc = "signs"
          /\ IF (Present(nr) /\ nr <= 0) \/ (Present(dr) /\ dr <= 0) \/ (Present(cut) /\ cut <= 0)
             THEN /\ out' = Reject /\ pc' = "done"
-            ELSE IF Truthiness THEN /\ out' = Acc(nr, cut) /\ pc' = "done"
+            ELSE IF Truthiness THEN /\ out' = Sticky(Acc(nr, cut)) /\ pc' = "done"
             ELSE /\ pc' = "branch" /\ UNCHANGED out
-         /\ UNCHANGED <<inp, nr, dr, cut>>
+         /\ UNCHANGED <<inp, nr, dr, cut, kept, nfile>>
 
 \* if not nr is None and nr < 2: raise  (the last check of _init_cutoff)
 Finish == /\ pc = "finish"
-          /\ out' = (IF Present(nr) /\ nr < 2 THEN Reject ELSE Acc(nr, cut)) /\ pc' = "done"
-          /\ UNCHANGED <<inp, nr, dr, cut>>
+          /\ out' = (IF Present(nr) /\ nr < 2 THEN Reject ELSE Sticky(Acc(nr, cut))) /\ pc' = "done"
+          /\ UNCHANGED <<inp, nr, dr, cut, kept, nfile>>
 
-Next == Read \/ AllThree \/ SetCutoff \/ SetNr \/ StepAlone \/ NoBranch \/ Signs \/ Finish
+\* the process goes on to another file
+NextFile == /\ pc = "done" /\ nfile < Files
+            /\ kept' = (IF out # Reject THEN out ELSE kept)
+            /\ inp' \in [nr : NrVals, dr : DrVals, cut : CutVals]
+            /\ nr' = Absent /\ dr' = Absent /\ cut' = Absent /\ pc' = "read" /\ out' = Pending /\ nfile' = nfile + 1
+
+Next == NextFile \/ Read \/ AllThree \/ SetCutoff \/ SetNr \/ StepAlone \/ NoBranch \/ Signs \/ Finish
 Spec == Init /\ [][Next]_vars
 
 -----------------------------------------------------------------------------
 (* (c) *)
 ImplAgrees == (pc = "done") => (out = Derive(inp))
-Terminates == (~ENABLED Next) => pc = "done"
+Terminates == (~ENABLED Next) => (pc = "done" /\ nfile = Files)
 \* exactly the two-of-three combinations with positive values are accepted with a derived third
 AcceptedShape == (pc = "done" /\ out # Reject) =>
     /\ ~(Present(inp.nr) /\ Present(inp.dr) /\ Present(inp.cut))
